@@ -239,7 +239,10 @@ restart:
     drec->stream.next_in = (unsigned char *) (d->data + consumed);
     drec->stream.avail_in = (uint32_t) (d->len - consumed);
 
-    while (drec->stream.avail_in != 0) {
+    // Run while there is input left, but also while the output buffer is full: the
+    // inflater may then hold more output than fitted, which has to be drained even
+    // though all the input has been consumed (otherwise it is never delivered).
+    while (drec->stream.avail_in != 0 || drec->stream.avail_out == 0) {
         // If there's no more data left in the
         // buffer, send that information out.
         if (drec->stream.avail_out == 0) {
@@ -313,6 +316,10 @@ restart:
             }
         } else if (drec->zlib_initialized) {
             rc = inflate(&drec->stream, Z_NO_FLUSH);
+            if (rc == Z_BUF_ERROR && drec->stream.avail_in == 0) {
+                // All input consumed and nothing more to drain.
+                rc = Z_OK;
+            }
         } else {
             // no initialization means previous error on stream
             return HTP_ERROR;
